@@ -245,11 +245,16 @@ def to_blackbird(prog: Program, version: str = "1.0") -> blackbird.BlackbirdProg
                 "temporal_modes": prog.timebins,
             }
         )
+
+        def to_array(values):
+            """Numeric lists keep their numeric dtype (Blackbird cannot serialize object arrays)."""
+            try:
+                return np.array([values])
+            except ValueError:
+                return np.array([values], dtype=object)
+
         bb._var.update(
-            {
-                f"{p.name}": np.array([prog.tdm_params[i]], dtype=object)
-                for i, p in enumerate(prog.loop_vars)
-            }
+            {f"{p.name}": to_array(prog.tdm_params[i]) for i, p in enumerate(prog.loop_vars)}
         )
 
     return bb
